@@ -401,7 +401,7 @@ theorem wf_families_covered (ad : Bool) (c : Registry.Collector) (fams : List (F
 theorem dHas_iff_mem_keys (k : Name) (d : List (Name × Name)) : dHas k d = true ↔ k ∈ d.map Prod.fst := by
   simp [dHas, List.any_eq_true]
 
-private theorem foldl_dSet_nodup (ps : List (Name × Name)) : ∀ acc : List (Name × Name),
+theorem foldl_dSet_nodup (ps : List (Name × Name)) : ∀ acc : List (Name × Name),
     ((acc ++ ps).map Prod.fst).Nodup → ps.foldl (fun d p => dSet p.1 p.2 d) acc = acc ++ ps := by
   induction ps with
   | nil => intro acc _; simp
